@@ -8,12 +8,16 @@ use crate::{Ctx, Tier};
 pub mod c01;
 pub mod c02;
 pub mod c03;
+pub mod c04;
+pub mod c05;
 pub mod c06;
 pub mod c10;
 pub mod c11;
 pub mod c12;
 pub mod c13;
 pub mod c14;
+pub mod c15;
+pub mod c17;
 pub mod deblk;
 pub mod yuv;
 pub mod pcheck;
@@ -26,6 +30,10 @@ pub fn run(prop: &str, ctx: &Ctx) -> Option<(Report, String)> {
         "C12" => c12::run(ctx),
         "C06" => c06::run(ctx),
         "C14" => c14::run(ctx),
+        "C04" => c04::run(ctx),
+        "C17" => c17::run(ctx),
+        "C15" => c15::run(ctx),
+        "C05" => c05::run(ctx),
         "C10" => c10::run(ctx),
         "C11" => c11::run(ctx),
         "C13" => c13::run(ctx),
@@ -75,6 +83,10 @@ pub fn replay(j: &J) -> i32 {
         "C12" => c12::replay_shard(&ctx, shard, &mut rep),
         "C06" => c06::replay_shard(&ctx, shard, &mut rep),
         "C14" => c14::replay_shard(&ctx, shard, &mut rep),
+        "C04" => c04::replay(&ctx, j, &mut rep),
+        "C17" => { let (r, _) = c17::run(&ctx); rep.merge(r); }
+        "C15" => c15::case(&ctx, shard, index, &mut rep),
+        "C05" => c05::replay(&ctx, j, &mut rep),
         "C10" => c10::replay(j, &mut rep),
         "C11" => c11::replay(&ctx, j, &mut rep),
         "C13" => c13::replay(&ctx, j, &mut rep),
